@@ -466,9 +466,12 @@ func (c connectStreamClientProtocol) encodeEnd(op *operation, end *responseEnd, 
 	length := buffer.Len()
 	limit := op.methodConf.maxMsgBufferBytes
 	if length > int(limit) {
-		return nil
+		// The stream must still end with an end-of-stream message: report
+		// that the real one is too large instead of omitting it.
+		buffer.Reset()
+		buffer.WriteString(`{"error": {"code": "resource_exhausted", "message": "end of stream exceeds the message size limit"}}`)
 	}
-	env := envelope{trailer: true, length: uint32(buffer.Len())} //nolint:gosec // Length is validated above.
+	env := envelope{trailer: true, length: uint32(buffer.Len())} //nolint:gosec // Bounded by the limit or by the fixed text above.
 	envBytes := c.encodeEnvelope(env)
 	_, _ = writer.Write(envBytes[:])
 	_, _ = buffer.WriteTo(writer)
